@@ -95,6 +95,20 @@ theorem dispatched_then_known (maxlen : Nat) (id : String) (known : List String)
 theorem generated_registers_before_enqueue :
     Generated.addOutboundOrder.head? = some "register" ∧ "put" ∈ Generated.addOutboundOrder := by decide
 
+/-- the draws are asked for in the configured ranges: `randint(0, max_initial_delay)` and `randrange(min_delay, max_delay)` of
+    the parameter set at hand (traced on the real `_repeated_enqueue_msg`), so the hypotheses of `first_delay` / `first_gap` hold for
+    whatever the random source returns -/
+theorem generated_draw_ranges :
+    Generated.drawRanges =
+      [(false, "randint", 0, Generated.unicast.maxInit), (false, "randrange", Generated.unicast.minDelay, Generated.unicast.maxDelay),
+       (true, "randint", 0, Generated.multicast.maxInit), (true, "randrange", Generated.multicast.minDelay, Generated.multicast.maxDelay)] := by
+  decide
+
+/-- `join` waits for the send loop without a time limit before anything is closed (program order traced on the real method):
+    together with `loop_ends_with_everything_sent` nothing that was queued at the stop is cut off -/
+theorem generated_join_waits_for_send_loop :
+    (Generated.joinTrace.takeWhile (fun s => s.1 == "join")).contains ("join", "send None") = true := by decide
+
 /-- non-vacuity: the multicast set with a concrete draw -/
 example : schedule Generated.multicast 17 120 = [17, 137, 377, 857, 1357] := by decide
 
